@@ -131,6 +131,14 @@ theorem innerOps_retrieveOK : RetrieveOK innerOps (fun _ d => ([.plain d], .ret 
     · subst h; rfl
     · exact hp x (poolGet_snd_mem _ _ _ _ h)
 
+/-- one function called three times with another function's call and a `Parse` in between, on a pool that
+    already holds a (truncated) container with stale cells -/
+example : ([.call (some dollar) (.num 1) {} (), .call none .null { pick := some 0 } (), .parse "$.a" [],
+            .call (some dollar) (.num 2) { drop := [0] } (), .call (some dollar) (.num 1) { pick := some 5 } ()] : List (Op Unit))[3]? =
+    some (.call (some dollar) (.num 2) { drop := [0] } ()) := rfl
+example : ({ pools := { result := [⟨⟨.container, [], [.plain (.str "stale")]⟩⟩] } } : World).pools.Truncated := by
+  intro c hc; rw [List.mem_singleton.mp hc]
+
 example : World.zero.pools.Truncated := by intro c hc; cases hc
 example : ¬ stalePool.pools.Truncated := by
   intro h; have := h _ (List.mem_singleton.mpr rfl); simp at this
